@@ -321,6 +321,11 @@ def decide(pid, tier):
             violations.append((write_replay(pid, "tie", payload), " no-failing-input-found"))
 
     evaluations = len(all_cases)
+    if hok and evaluations == 0 and not broken_tie:
+        broken_tie.append("the harness produced no case at all: nothing was explored")
+        if not violations:
+            violations.append((write_replay(pid, "tie", {"property": pid, "no_longer_checks": broken_tie, "seed": seed, "tier": tier}),
+                               " no-failing-input-found"))
     nontrivial = sum(s.get("distinct_nontrivial", 0) for s in summaries)
     samples = []
     for s in summaries:
